@@ -154,12 +154,26 @@ def _do_exit(self, pid, exitcode, exc=None):
         self.on_exit(pid, exitcode)
     if sys.platform != 'win32':
         try:
-            self.outq.put((DEATH, (pid, exitcode)))
+            self._put_death(pid, exitcode)
             time.sleep(1)
         finally:
             os._exit(exitcode)
     else:
         os._exit(exitcode)'''
+
+# the exit announcement: same message as before, but the queue's write lock is taken with a
+# bound (an exiting worker must never wait forever for a lock that was lost; C08)
+EXPECTED_PUT_DEATH = '''\
+def _put_death(self, pid, exitcode, timeout=1.0):
+    outq = self.outq
+    wlock = getattr(outq, '_wlock', None)
+    if wlock is None:
+        return outq.put((DEATH, (pid, exitcode)))
+    if wlock.acquire(True, timeout):
+        try:
+            outq._writer.send_bytes(ForkingPickler.dumps((DEATH, (pid, exitcode))))
+        finally:
+            wlock.release()'''
 
 CONSTS = ['ACK', 'READY', 'TASK', 'NACK', 'DEATH', 'EX_OK', 'EX_FAILURE', 'EX_RECYCLE',
           'GUARANTEE_MESSAGE_CONSUMPTION_RETRY_LIMIT']
@@ -344,6 +358,9 @@ def generate(repo):
     except (IndexError, AttributeError) as exc:
         fail('_do_exit structure: %s' % exc)
     compare_skeleton('Worker._do_exit', de, EXPECTED_DO_EXIT)
+    pd = pykernel.find_func(tree, 'Worker._put_death')
+    strip_doc(pd)
+    compare_skeleton('Worker._put_death', pd, EXPECTED_PUT_DEATH)
 
     # ------------------------------------------------------------------- emit
     spec = dict(name='K_worker', file=FILE, state=[], funcs=[])
